@@ -175,6 +175,8 @@ def finish(res, tier, seed, level, t0, rule, assumptions, exhaustive=False, extr
             if len(seen) > 25:
                 break
             name = "%s-%s-%s-%s-%s" % (sig.get("module"), sig.get("ty"), sig.get("a"), sig.get("syn"), sig.get("reason"))
+            if sig.get("style"):
+                name += "-" + sig["style"]
             path = lib.write_replay(res.prop, name.replace("/", "_"), payload)
             print("VIOLATION property=%s replay=%s" % (res.prop, path))
             log("  ", json.dumps(sig))
@@ -227,12 +229,17 @@ def check_C03(tier, seed):
                         rule="for every (type, value) of the universe: the BER variants of spec/Variants.tla (16 styles: padded long-form lengths, indefinite lengths at all / odd / even depths, constructed and nested constructed strings, reversed SET order, DEFAULT values present, TRUE = 01, unknown primitive / constructed extension additions), BASIC-PER/OER defaults-present and unknown-extension forms, XER layouts (LF, CR LF TAB, comments, empty-element tags, defaults present); each is decoded one-shot and must give RC_OK, full length consumed, the value, and the canonical DER re-encoding")
 
 
+def check_C06(tier, seed):
+    return codec_family("C06", tier, seed, "reps",
+                        rule="for every (type, value) of the universe and every representation change that applies to it (SET OF order, INTEGER sign-extension padding, DEFAULT materialised, unused-bit noise, non-canonical TRUE, structure decoded from a non-canonical BER variant): the representation is built (or decoded), must compare equal to the canonical structure, and each canonical encoder (DER, UPER, OER, CANONICAL-XER) must produce the octets of the canonical structure (DER/UPER/OER: the reference octets)")
+
+
 def check_C01(tier, seed):
     return codec_family("C01", tier, seed, "rt" if tier == "quick" else "chain", exact=False,
                         rule="sessions Build, Encode(s), Decode(s), Compare, Encode(DER) for every syntax s (thorough: all ordered pairs of syntaxes as transcoding chains) over every (type, value) of the universe; distinct = distinct (module, type, value)")
 
 
-CHECKS = {"C01": check_C01, "C02": check_C02, "C03": check_C03, "C05": check_C05}
+CHECKS = {"C01": check_C01, "C02": check_C02, "C03": check_C03, "C05": check_C05, "C06": check_C06}
 
 
 def replay(prop, path):
